@@ -225,6 +225,18 @@ package sql
 //@   callsite Sprintf requires[C06] nid-is-a-top-level-conjunct: litcontains($arg0, "DELETE FROM %s WHERE (%s) AND nid = ?") && litcount($arg0, "?") == 1
 //@   ensures[C06] last-argument-is-the-network-id: err == nil ==> len(args) >= 1 && as(args[len(args) - 1], uuid.UUID) == nid
 //@   loop 1 invariant (isnil(args) || fresh(args)) && (isnil(ors) || fresh(ors))
+//@   loop 1 invariant[C04] one-disjunct-per-tuple: len(ors) == $n
+//@   loop 1 step[C04] subject-id-row-clause: istype(rt.Subject, *relationtuple.SubjectID) ==> len(ors) == athead(len(ors)) + 1 && ors[len(ors) - 1] == "(namespace = ? AND object = ? AND relation = ? AND subject_id = ? AND subject_set_namespace IS NULL AND subject_set_object IS NULL AND subject_set_relation IS NULL)" && len(args) == athead(len(args)) + 4 && as(args[len(args) - 4], string) == rt.Namespace && as(args[len(args) - 3], uuid.UUID) == rt.Object && as(args[len(args) - 2], string) == rt.Relation && as(args[len(args) - 1], uuid.UUID) == as(rt.Subject, *relationtuple.SubjectID).ID
+//@   loop 1 step[C04] subject-set-row-clause-0: istype(rt.Subject, *relationtuple.SubjectSet) ==> len(ors) == athead(len(ors)) + 1
+//@   loop 1 step[C04] subject-set-row-clause-1: istype(rt.Subject, *relationtuple.SubjectSet) ==> ors[len(ors) - 1] == "(namespace = ? AND object = ? AND relation = ? AND subject_id IS NULL AND subject_set_namespace = ? AND subject_set_object = ? AND subject_set_relation = ?)"
+//@   loop 1 step[C04] subject-set-row-clause-2: istype(rt.Subject, *relationtuple.SubjectSet) ==> len(args) == athead(len(args)) + 6
+//@   loop 1 step[C04] subject-set-row-clause-3: istype(rt.Subject, *relationtuple.SubjectSet) ==> as(args[len(args) - 6], string) == rt.Namespace
+//@   loop 1 step[C04] subject-set-row-clause-4: istype(rt.Subject, *relationtuple.SubjectSet) ==> as(args[len(args) - 5], uuid.UUID) == rt.Object
+//@   loop 1 step[C04] subject-set-row-clause-5: istype(rt.Subject, *relationtuple.SubjectSet) ==> as(args[len(args) - 4], string) == rt.Relation
+//@   loop 1 step[C04] subject-set-row-clause-6: istype(rt.Subject, *relationtuple.SubjectSet) ==> as(args[len(args) - 3], string) == as(rt.Subject, *relationtuple.SubjectSet).Namespace
+//@   loop 1 step[C04] subject-set-row-clause-7: istype(rt.Subject, *relationtuple.SubjectSet) ==> as(args[len(args) - 2], uuid.UUID) == as(rt.Subject, *relationtuple.SubjectSet).Object
+//@   loop 1 step[C04] subject-set-row-clause-8: istype(rt.Subject, *relationtuple.SubjectSet) ==> as(args[len(args) - 1], string) == as(rt.Subject, *relationtuple.SubjectSet).Relation
+//@   callsite Join requires[C04] disjunction-of-the-row-clauses: $arg0 == ors && $arg1 == " OR " && len(ors) == len(rs)
 
 // ---- C16: the string<->UUID mapping manager. A name's UUID is the version-5 UUID of the
 // name in the network's namespace: newv5 is a function (the same name always gets the same
